@@ -23,6 +23,16 @@ import Uft.Model.PyHook
      allocator); the block of the first frame is freed by del@ unless pin = 1 (the tracer holds
      a reference).  After an out-of-bounds frame access (oob) the rest of the line is ignored.
 
+   code <lib names|-> | <tok> …
+     `convert_function_addr` over a history of code objects (Model/PyHook §6 `convertCode`):
+     tok = a:<addr>=<name>  a code object of function <name> is allocated at <addr>
+           f:<addr>         the code object at <addr> is freed
+           e:<addr>         a `call` event whose frame's f_code is at <addr>
+     -> "<name>:<symbol address>" per e: token ("-" when nothing lives there)
+   launch <fixed 0|1> <abs 0|1> <cwd> <arg> <from>=<to>,… | <file> …
+     the launcher (Model/PyHook §7): paths are slash-separated, the realpath table maps whole paths
+     -> "<sys.path[0]> <main_dir> | <1|0 per file: program code?>"
+
    Pattern matching (libc strcmp/regexec/fnmatch in the C code) is done here for
    the subset the generator uses: regex = literals, `.`, postfix `*`, `^`, `$`
    (unanchored search); glob = literals, `*`, `?`.
@@ -245,10 +255,64 @@ def handleHook (fixed guard pin below maxst mode ptype filt libs : String) (toks
       s!"idx={r.st.hk.m.idx} oob={oob} lone={r.lone} | {" ".intercalate (file.map showSymLine)} | {" ".intercalate res}"
   | _, _ => "bad-op"
 
+structure CodeRun where
+  heap : List (Nat × String) := []
+  tree : Uft.PyHook.Tree String := .leaf
+  shm : Uft.PyHook.Shm String := Uft.PyHook.Shm.empty
+  out : List String := []
+  bad : Bool := false
+
+open Uft.PyHook in
+def codeStep (isLib : String → Bool) (r : CodeRun) (t : String) : CodeRun :=
+  match t.splitOn ":" with
+  | ["a", rest] =>
+    match rest.splitOn "=" with
+    | [a, name] =>
+      match a.toNat? with
+      | some a => { r with heap := (a, name) :: r.heap.filter (fun x => x.1 != a) }
+      | none => { r with bad := true }
+    | _ => { r with bad := true }
+  | ["f", a] =>
+    match a.toNat? with
+    | some a => { r with heap := r.heap.filter (fun x => x.1 != a) }
+    | none => { r with bad := true }
+  | ["e", a] =>
+    match a.toNat? with
+    | some a =>
+      let ev : CEv String := { code := a, heap := fun x => r.heap.lookup x }
+      let cv := convertCode compare isLib r.tree r.shm ev
+      { r with tree := cv.1, shm := cv.2.1,
+               out := r.out ++ [match cv.2.2 with | some s => s!"{s.name}:{s.addr}" | none => "-"] }
+    | none => { r with bad := true }
+  | _ => { r with bad := true }
+
+def handleCode (libs : String) (toks : List String) : String :=
+  let ls := if libs == "-" then [] else libs.splitOn ","
+  let r := toks.foldl (codeStep (fun n => ls.contains n)) {}
+  if r.bad then "bad-op" else " ".intercalate r.out
+
+def pathOf (s : String) : List String := (s.splitOn "/").filter (· != "")
+def showPath (p : List String) : String := "/" ++ "/".intercalate p
+
+open Uft.PyHook in
+def handleLaunch (fixed abs cwd arg tab : String) (files : List String) : String :=
+  let table : List (List String × List String) :=
+    if tab == "-" then [] else (tab.splitOn ",").filterMap fun kv =>
+      match kv.splitOn "=" with
+      | [a, b] => some (pathOf a, pathOf b)
+      | _ => none
+  let l : Launch := { arg := pathOf arg, isAbs := abs == "1", cwd := pathOf cwd,
+                      real := fun p => (table.lookup p).getD p }
+  let fx := fixed == "1"
+  s!"{showPath (sysPath0 fx l)} {showPath (mainDir fx l)} | " ++
+    " ".intercalate (files.map fun f => if isProgramFile fx l (pathOf f) then "1" else "0")
+
 def handleAll (ws : List String) : String :=
   match splitBar ws with
   | (["hook", fixed, guard, pin, below, maxst, mode, ptype, filt, libs], toks) =>
     handleHook fixed guard pin below maxst mode ptype filt libs toks
+  | (["code", libs], toks) => handleCode libs toks
+  | (["launch", fixed, abs, cwd, arg, tab], files) => handleLaunch fixed abs cwd arg tab files
   | _ => handle ws
 
 def model : Model := { σ := Unit, init := (), step := fun _ ws => ((), handleAll ws) }
